@@ -16,7 +16,7 @@ Every theorem quantifies over ALL messages / JSON values / byte strings / event 
 sequences; nothing is bounded.  Proofs are in the `Lemmas*` files (`Wire.L.*`); this file states the
 properties.  Counter-example theorems for the four repaired defects: `L.f1_counterexample_2p53`,
 `L.f1_counterexample_maxint64`, `L.f2_counterexample_withheld`, `L.f2_counterexample_dup`,
-`L.f8_counterexample_text`, `L.f8_counterexample_image`.
+`L.f8_counterexample_text`, `L.f8_counterexample_image`; for the known finding F23: `L.f23_counterexample`.
 -/
 namespace Wire
 open Generated.Wire
@@ -171,6 +171,18 @@ nil), `content` is a non-null array in a tool_result, and the same holds inside 
 fix F8 this failed for nested blocks (`L.f8_counterexample_text`, `L.f8_counterexample_image`). -/
 theorem required_members_present (c : Content) : reqOK (encodeContent c) = true :=
   L.required_members_present c
+
+/-- **required_members_present**, resource contents — PARTIAL (known finding F23).
+Full statement (FALSE on this tree, counter-example `L.f23_counterexample`):
+  `∀ uri mime text blob m, resourceOK (encodeResource uri mime text blob m) = true`
+i.e. every resource contents object carries `text` or `blob`.  What holds: it does whenever the text
+is non-empty or a blob is present; an EMPTY text resource is written as `{"uri":…}` because `text`
+has `omitempty` and `ResourceContents` has no `MarshalJSON` (the repository's own test pins that). -/
+theorem resource_text_present_partial (uri mime text : Bytes) (blob : Option Bytes) (m : Meta)
+    (h : text ≠ [] ∨ blob.isSome = true) : resourceOK (encodeResource uri mime text blob m) = true :=
+  L.resource_text_present_partial uri mime text blob m h
+
+example : resourceOK (encodeResource [117] [] [116] none []) = true := by decide
 
 /-- **required_members_present**, results: a result that is sent carries an array for its required
 list member — never `null` — whatever the handler or registry left (nil included; F15 repaired). -/
